@@ -191,7 +191,7 @@ static int g_thin;
 static void ph_cells(void *u) {
     for (size_t i = 0; i < g_cells.n; i++) {
         if (!mc_mine(i)) continue;
-        if ((i & 7) == 0 && mc_expired()) return;
+        if (mc_tick(7)) return;
         mc_states(1);
         MC_RUN(OP_CELL, H(g_cells.v[i]), I(g_thin));
     }
@@ -203,7 +203,7 @@ static void ph_axis(void *u) {
         U64Vec v = {0};
         dom_axis(r, r == 15 ? (mc_thorough ? 3000 : 400) : (mc_thorough ? 6000 : 600), mc_wid, mc_nw, &v);
         for (size_t i = 0; i < v.n; i++) {
-            if ((i & 7) == 0 && mc_expired()) return;
+            if (mc_tick(7)) return;
             mc_states(1);
             mc_ctr(7, 1);
             MC_RUN(OP_CELL, H(v.v[i]), I(1));
